@@ -49,6 +49,16 @@ type c19TypeErr struct {
 func c19Int(v *ref.V) int64 { return v.I.Int64() }
 
 var c19TypeErrs = []c19TypeErr{
+	// decoding the text of a string inside the expression: an empty text holds no document (the decoder's own
+	// end-of-input error is the error of that evaluation, not the end of the file being read)
+	{".a | from_json | .k",
+		func(c *c19ctx) (*ref.V, *ref.V) { n := c.intv(); return ref.StrV(`{"k": ` + n.JSON() + `}`), n },
+		func(c *c19ctx) (*ref.V, *ref.V) { return ref.StrV(""), c.intv() },
+		func(a, b *ref.V) *ref.V { return b }},
+	{".a | from_yaml | .k",
+		func(c *c19ctx) (*ref.V, *ref.V) { n := c.intv(); return ref.StrV("k: " + n.JSON()), n },
+		func(c *c19ctx) (*ref.V, *ref.V) { return ref.StrV(""), c.intv() },
+		func(a, b *ref.V) *ref.V { return b }},
 	{".a + .b",
 		func(c *c19ctx) (*ref.V, *ref.V) { return c.intv(), c.intv() },
 		func(c *c19ctx) (*ref.V, *ref.V) { return c.flatMap(1, c.scalar), c.intv() },
@@ -299,7 +309,7 @@ func (c *c19ctx) injectXML() {
 
 func (c *c19ctx) injectB1(n int) {
 	c.group = "B-inject"
-	kinds := []string{"syntax", "missing", "dir", "type", "encode", "xml"}
+	kinds := []string{"syntax", "missing", "dir", "type", "encode", "xml", "type"}
 	kind := kinds[n%len(kinds)]
 	if kind == "xml" {
 		c.injectXML()
@@ -330,6 +340,9 @@ func (c *c19ctx) injectB1(n int) {
 	switch kind {
 	case "type":
 		te = c19TypeErrs[c.r.IntN(len(c19TypeErrs))]
+		if c.r.IntN(2) == 0 {
+			te = c19TypeErrs[c.r.IntN(2)] // the in-expression decoders
+		}
 		expr = te.expr
 		mkGood = func() *ref.V {
 			a, b := te.good(c)
@@ -487,6 +500,19 @@ func (c *c19ctx) injectB1(n int) {
 			c.tag("earlier_results_missing")
 		}
 		c.tag(fmt.Sprintf("printed_before_failure:%d", min(len(got), 3)))
+	}
+	if ok && stdin == nil && !jsonStream && kind != "missing" && kind != "dir" && c.r.IntN(2) == 0 {
+		// the same failing run editing its first file in place: the failure is still reported
+		for _, mode := range []string{"ea", "eval"} {
+			x := c.yq(nil, append([]string{mode, "-i", expr}, args...)...)
+			if x.TimedOut {
+				return
+			}
+			c.tag("in_place:" + mode)
+			if !c.failedProperly(x, what+" ["+mode+" -i]") {
+				return
+			}
+		}
 	}
 	c.res.Nontrivial = ok && around > 0
 	c.say(what + " -> exit != 0 with a message; stdout is a prefix of the earlier documents' results")
